@@ -42,3 +42,14 @@ Theorem C13_solve_keeps_assertions :
   ss_perm s' = ss_perm (ensure_init base s) /\ ss_init s' = true.
 Proof. intros A M oracle obj value bt stop mi base. exact (solve_perm oracle obj value bt stop mi base). Qed.
 Print Assumptions C13_solve_keeps_assertions.
+
+(* initialize() hands the solver the assertion set of the problem (base), whatever the object did before: blocking clauses of
+   earlier enumerations are dropped, nothing of the problem is.  (The check compares the assertion sets of every initialize()
+   of a history, and of a second solver object created on the same problem, on the real library.) *)
+Theorem C13_initialize_is_a_function_of_the_problem :
+  forall (A M : Type) (oracle : nat -> list A -> @answer M)
+         objective value better_than differs differs_var stop_now max_iter (base : list A) fuel s,
+  let s' := fst (fst (sstep oracle objective value better_than differs differs_var stop_now max_iter base fuel s OpInitialize)) in
+  ss_perm s' = base /\ ss_init s' = true /\ ss_model s' = ss_model s.
+Proof. intros. cbn. auto. Qed.
+Print Assumptions C13_initialize_is_a_function_of_the_problem.
